@@ -38,6 +38,35 @@ enum TransformType {
     Matrix(f32, f32, f32, f32, f32, f32),
 }
 
+/// The numbers of an argument list as SVG writes them: separated by blanks or commas,
+/// or by nothing at all where a sign or a second decimal point starts the next one
+/// ("5-3" is 5 and -3, "1.5.5" is 1.5 and .5).
+fn number_list(args: &str) -> Vec<String> {
+    let mut numbers = Vec::new();
+    let mut current = String::new();
+    for ch in args.chars() {
+        let after_exponent = current.ends_with(['e', 'E']);
+        let starts_next = match ch {
+            '+' | '-' => !current.is_empty() && !after_exponent,
+            '.' => current.contains('.') && !current.contains(['e', 'E']),
+            _ => false,
+        };
+        if matches!(ch, ',' | ' ' | '\t' | '\n' | '\r') || starts_next {
+            if !current.is_empty() {
+                numbers.push(std::mem::take(&mut current));
+            }
+            if !starts_next {
+                continue;
+            }
+        }
+        current.push(ch);
+    }
+    if !current.is_empty() {
+        numbers.push(current);
+    }
+    numbers
+}
+
 impl FromStr for TransformType {
     type Err = SvgdxError;
 
@@ -50,11 +79,13 @@ impl FromStr for TransformType {
             .next()
             .ok_or_else(|| SvgdxError::ParseError("No transform args".to_owned()))?
             .strip_suffix(')')
-            .ok_or_else(|| SvgdxError::ParseError("No closing bracket".to_owned()))?
-            .split(&[',', ' ', '\t', '\n', '\r'])
-            .filter(|&v| !v.is_empty())
-            .map(strp)
+            .ok_or_else(|| SvgdxError::ParseError("No closing bracket".to_owned()))?;
+        let args = number_list(args)
+            .iter()
+            .map(|v| strp(v))
             .collect::<Result<Vec<_>>>()?;
+        // "translate (5,3)": blanks may stand between the name and the parenthesis
+        let name = name.trim();
         // See https://www.w3.org/TR/SVG11/coords.html#TransformAttribute
         Ok(match name.to_lowercase().as_str() {
             "translate" => {
